@@ -57,10 +57,17 @@ def gen_desc(rng, tier):
         if name not in table:
             out.append({"k": "desc", "name": name, "id": idx, "variant": 0, "value": 0, "ann": False})
             continue
-        for vi, (_, vals) in enumerate(table[name]):
+        for vi, (_, vals, tag) in enumerate(table[name]):
             for xi in range(len(vals)):
                 for ann in (False, True):
-                    out.append({"k": "desc", "name": name, "id": idx, "variant": vi, "value": xi, "ann": ann})
+                    # the cross product special text x every matcher is sampled in the quick tier (first value
+                    # without message always kept); patterns, argument shapes and tuple matchees are all kept
+                    if tag.startswith("text") and tier == "quick" and (xi or ann) and rng.random() >= 0.2:
+                        continue
+                    c = {"k": "desc", "name": name, "id": idx, "variant": vi, "value": xi, "ann": ann}
+                    if tag != "base":
+                        c["what"] = tag       # for the reader of a replay: kind of variant and what it is built from
+                    out.append(c)
     # combinator expressions as in C06
     from . import gen_c06 as g
     n = 500 if tier == "quick" else 12000
@@ -325,6 +332,10 @@ def distribution(cases):
             d["repr_ml"][str(c["ml"])] = d["repr_ml"].get(str(c["ml"]), 0) + 1
         elif k == "desc":
             names.add(c["name"])
+            d["desc_cases"] = d.get("desc_cases", 0) + 1
+            w = c.get("what", "base").split(":")[0]
+            d.setdefault("desc_variants", {})
+            d["desc_variants"][w] = d["desc_variants"].get(w, 0) + 1
         elif k == "dexpr":
             d["dexpr_unorderable_dict_keys"] += mixed_keys(c["m"], c["v"])
         elif k == "test":
